@@ -3,5 +3,7 @@
    inductive types.  No Extract Constant of our own. *)
 From Coq Require Import Extraction ExtrOcamlBasic.
 From Util Require Import Common.Base Pure.Spec.
+From Util Require CSync.RWSpec CSync.MSpec.
 Extraction Language OCaml.
-Extraction "models.ml" Pure.Spec.run_check_pure.
+Extraction "models.ml" Pure.Spec.run_check_pure
+  CSync.RWSpec.run_check_rwmutex CSync.MSpec.run_check_mutex.
